@@ -272,7 +272,7 @@ func (e *KnowledgeBase) RemoveRuleEntry(name string) {
 		//mark the rule as deleted and change the rule name to DELETED_XXX_XXXXX to avoid duplicate rule entry issue
 		//Note: This is a workaround, will improve this logic a bit in near future
 		ruleEntry := e.RuleEntries[name]
-		e.RuleEntries[name].RuleName = fmt.Sprintf("Deleted_%s", ruleEntry.RuleName)
+		e.RuleEntries[name].RuleName = fmt.Sprintf("Deleted_%s", uuid.New().String())
 		e.RuleEntries[name].Deleted = true
 		delete(e.RuleEntries, name)
 		e.RuleEntries[ruleEntry.RuleName] = ruleEntry
